@@ -332,52 +332,58 @@ class FileScanHelper:
             next_file, next_file_name, fix_debug, fix_file_debug, fix_list, collect_list
         )
 
-        # If tokens are returned, then no changes were made due to tokens and the
-        # tokenized list can be reused without any worry of changes.
-        if actual_tokens:
-            assert (
-                not did_any_tokens_get_fixed
-            ), "Reusing tokens assumes that no tokens were fixed/changed."
-            POGGER.info(
-                "Scanning for token fixes did not change file.  Reusing tokens for line-by-line fixes."
-            )
-        else:
-            actual_tokens = self.__process_file_fix_rescan(
-                fix_debug, fix_nolog_rescan, next_file_two
+        temporary_line_file_name: Optional[str] = None
+        try:
+            # If tokens are returned, then no changes were made due to tokens and the
+            # tokenized list can be reused without any worry of changes.
+            if actual_tokens:
+                assert (
+                    not did_any_tokens_get_fixed
+                ), "Reusing tokens assumes that no tokens were fixed/changed."
+                POGGER.info(
+                    "Scanning for token fixes did not change file.  Reusing tokens for line-by-line fixes."
+                )
+            else:
+                actual_tokens = self.__process_file_fix_rescan(
+                    fix_debug, fix_nolog_rescan, next_file_two
+                )
+
+            # As the lines are processed, a new temporary line file is written to. If either
+            # tokens were fixed or lines were fixed, the file contents of the file
+            # temporary_line_file_name will contain the updated document.
+            temporary_line_file_name = self.__get_temporary_file_name()
+            (
+                this_file_fix_line_records,
+                collected_line_triggers,
+            ) = self.__process_file_fix_lines(
+                next_file_two,
+                next_file_name,
+                actual_tokens,
+                fix_debug,
+                fix_file_debug,
+                fix_list,
+                collect_list,
+                temporary_line_file_name,
             )
 
-        # As the lines are processed, a new temporary line file is written to. If either
-        # tokens were fixed or lines were fixed, the file contents of the file
-        # temporary_line_file_name will contain the updated document.
-        (
-            this_file_fix_line_records,
-            temporary_line_file_name,
-            collected_line_triggers,
-        ) = self.__process_file_fix_lines(
-            next_file_two,
-            next_file_name,
-            actual_tokens,
-            fix_debug,
-            fix_file_debug,
-            fix_list,
-            collect_list,
-        )
-
-        # If anything was fixed, copy the temporary file on top of the original file
-        # that was scanned.
-        did_any_lines_get_fixed = bool(this_file_fix_line_records)
-        did_anything_get_fixed = did_any_lines_get_fixed or did_any_tokens_get_fixed
-        if did_anything_get_fixed:
-            if fix_debug and fix_file_debug:
-                print(f"Copy {temporary_line_file_name} to {next_file}")
-            shutil.copyfile(temporary_line_file_name, next_file)
-        if fix_debug and fix_file_debug:
-            print(f"Remove:{temporary_line_file_name}")
-        os.remove(temporary_line_file_name)
-        if next_file_two != next_file:
-            if fix_debug and fix_file_debug:
-                print(f"Remove:{next_file_two}")
-            os.remove(next_file_two)
+            # If anything was fixed, copy the temporary file on top of the original file
+            # that was scanned.
+            did_any_lines_get_fixed = bool(this_file_fix_line_records)
+            did_anything_get_fixed = did_any_lines_get_fixed or did_any_tokens_get_fixed
+            if did_anything_get_fixed:
+                if fix_debug and fix_file_debug:
+                    print(f"Copy {temporary_line_file_name} to {next_file}")
+                shutil.copyfile(temporary_line_file_name, next_file)
+        finally:
+            # Whatever happened, do not leave the temporary files of this pass behind.
+            if temporary_line_file_name and os.path.exists(temporary_line_file_name):
+                if fix_debug and fix_file_debug:
+                    print(f"Remove:{temporary_line_file_name}")
+                os.remove(temporary_line_file_name)
+            if next_file_two != next_file and os.path.exists(next_file_two):
+                if fix_debug and fix_file_debug:
+                    print(f"Remove:{next_file_two}")
+                os.remove(next_file_two)
 
         return did_anything_get_fixed, collected_token_triggers, collected_line_triggers
 
@@ -503,6 +509,11 @@ class FileScanHelper:
 
     # pylint: enable=too-many-arguments, too-many-locals
 
+    @staticmethod
+    def __get_temporary_file_name() -> str:
+        with tempfile.NamedTemporaryFile() as temp_output:
+            return temp_output.name
+
     # pylint: disable=too-many-arguments, too-many-locals
     def __process_file_fix_lines(
         self,
@@ -513,10 +524,9 @@ class FileScanHelper:
         fix_file_debug: bool,
         fix_list: List[str],
         collect_list: List[str],
-    ) -> Tuple[List[FixLineRecord], str, Set[str]]:
+        temporary_file_name: str,
+    ) -> Tuple[List[FixLineRecord], Set[str]]:
         source_provider = FileSourceProvider(next_file)
-        with tempfile.NamedTemporaryFile() as temp_output:
-            temporary_file_name = temp_output.name
         with open(temporary_file_name, "wt", encoding="utf-8") as source_file:
             POGGER.info("Scanning before line-by-line fixes.")
             fix_context = self.__plugins.starting_new_file(
@@ -556,7 +566,6 @@ class FileScanHelper:
         self.__print_file_in_debug_mode(fix_debug, fix_file_debug, temporary_file_name)
         return (
             this_file_fix_line_records,
-            temporary_file_name,
             report_context.get_triggered_rules(),
         )
 
